@@ -34,9 +34,10 @@ func init() {
 			"(K-utc) every date the module constructs is a UTC value (time.Date with time.UTC, no ParseInLocation with another location), so that window bounds, period ends and journal dates are comparable instants.",
 			"(K-week-bounds) the day offsets that StartOf/EndOf derive from the weekday, evaluated for the seven weekday classes, stay inside the date's own week and land on its Monday (start) or Sunday (end);",
 			"(K-month-bounds) the dates that StartOf/EndOf build from the month of the date, evaluated for the twelve month classes with year and day symbolic, are the first / last days of the month, quarter or year that contains the date;",
+			"(K-part-chain, limit) the loop that builds the periods, executed with the window unbounded and `last` = 1..6, appends exactly `last` periods, and is not left for `last` = 0, -1: --last n keeps exactly n;",
 		},
 		NotDecided: []string{
-			"time.AddDate and the lengths of months (trusted); forms of StartOf/EndOf other than the ones K-week-bounds and K-month-bounds interpret (an offset derived from the weekday, a date built from year, month expression and constant day, AddDate with constants, siblings applied to the date); that `--last n` keeps exactly n periods (the comparison operator of the limit); the correctness of the reversal loop's index arithmetic beyond its shape.",
+			"time.AddDate and the lengths of months (trusted); forms of StartOf/EndOf other than the ones K-week-bounds and K-month-bounds interpret (an offset derived from the weekday, a date built from year, month expression and constant day, AddDate with constants, siblings applied to the date); the correctness of the reversal loop's index arithmetic beyond its shape.",
 		},
 		Rules: []Rule{RuleKPartChain, RuleKPartAlign, RuleKPartDates, RuleKPartitionWhole, RuleKUTC, RuleKWeekBounds, RuleKMonthBounds},
 	})
